@@ -132,17 +132,28 @@ func (db *DB) newMem(n int) (mem *memDB, err error) {
 	defer db.memMu.Unlock()
 
 	if db.frozenMem != nil {
+		// The new journal file won't be used, don't leave it behind.
+		_ = w.Close()
+		if err := db.s.stor.Remove(fd); err == nil {
+			db.s.reuseFileNum(fd.Num)
+		}
 		return nil, errHasFrozenMem
 	}
 
 	if db.journal == nil {
 		db.journal = journal.NewWriter(w)
 	} else {
+		// Reset switches the journal to the new file even if flushing the
+		// old one fails, so the switch must be completed: bailing out here
+		// would leave journalWriter/journalFd pointing to the old file while
+		// records go to the new one (and Sync to the wrong file). Every
+		// record of the old journal has been flushed, and its error reported,
+		// by the write that produced it.
 		if err := db.journal.Reset(w); err != nil {
-			return nil, err
+			db.logf("journal@switch flushing @%d %q", db.journalFd.Num, err)
 		}
 		if err := db.journalWriter.Close(); err != nil {
-			return nil, err
+			db.logf("journal@switch closing @%d %q", db.journalFd.Num, err)
 		}
 		db.frozenJournalFd = db.journalFd
 	}
